@@ -425,6 +425,8 @@ func deepCopy(v any) any {
 	return x
 }
 
+var protectedKeys = map[string]bool{"rundir": true, "marker": true, "now_ns": true, "wait_ms": true, "live_offsets_ms": true}
+
 // candidates enumerates one-step reductions of a JSON value.
 func candidates(v any) []any {
 	var res []any
@@ -451,6 +453,9 @@ func candidates(v any) []any {
 		}
 		sort.Strings(keys)
 		for _, k := range keys {
+			if protectedKeys[k] {
+				continue // paths and clocks the harness itself acts on are not data to be shrunk
+			}
 			for _, c := range candidates(x[k]) {
 				y := map[string]any{}
 				for k2, v2 := range x {
